@@ -57,7 +57,7 @@ pub fn match_json(r: &MatchResult, tx: &TxIds, hint: u64) -> Value {
         .as_vec()
         .iter()
         .map(|t| {
-            json!({"maker": id_num(&t.maker_order_id), "qty": sq(t.quantity), "px": sint(t.price),
+            json!({"maker": id_num(&t.maker_order_id), "qty": sq(t.quantity), "px": pq(t.price),
                    "taker": id_num(&t.taker_order_id), "tside": side_str(t.taker_side),
                    "txid": tx.index(&t.transaction_id, hint)})
         })
@@ -69,7 +69,7 @@ pub fn match_json(r: &MatchResult, tx: &TxIds, hint: u64) -> Value {
 
 pub fn update_of(c: &Value) -> Option<OrderUpdate> {
     let id = oid_of(c["id"].as_u64().unwrap_or(0));
-    let p = c["p"].as_u64().unwrap_or(0);
+    let p = inp(c["p"].as_u64().unwrap_or(0));
     let q = inq(c["q"].as_u64().unwrap_or(0));
     Some(match c["op"].as_str()? {
         "cancel" => OrderUpdate::Cancel { order_id: id },
@@ -314,7 +314,7 @@ struct Exec {
 }
 
 fn build(sc: &Value) -> Exec {
-    let price = sc["price"].as_u64().unwrap_or(100);
+    let price = inp(sc["price"].as_u64().unwrap_or(100));
     let level = Arc::new(PriceLevel::new(price));
     for o in sc["init"].as_array().cloned().unwrap_or_default() {
         level.add_order(order_of(&o));
@@ -434,7 +434,7 @@ fn run_once(sched: &Arc<Sched>, sc: &Value, sc_ix: usize, run_ix: usize, micro: 
                         Ok(Ok(l2)) => {
                             let g2 = Arc::new(UuidGenerator::new(gen_namespace()));
                             line["ok"] = json!(true);
-                            line["price2"] = json!(sint(l2.price()));
+                            line["price2"] = json!(pq(l2.price()));
                             line["st2"] = unregistered(|| state_json(&l2, Some(&g2), true));
                             if kind == "fork" {
                                 second = Some((Arc::new(l2), g2));
@@ -557,6 +557,7 @@ pub fn run_scenarios(scs: &[Value]) -> (Vec<String>, Vec<Value>) {
     for (ix, sc) in scs.iter().enumerate() {
         // scaled run (see model.rs): only meaningful for macro recordings of single-threaded histories
         SCALE.store(sc["scale"].as_u64().unwrap_or(1).max(1), std::sync::atomic::Ordering::Relaxed);
+        PSCALE.store(sc["pscale"].as_u64().unwrap_or(1).max(1), std::sync::atomic::Ordering::Relaxed);
         TSOFF.store(sc["tsoff"].as_str().and_then(|x| x.parse::<u64>().ok()).or(sc["tsoff"].as_u64()).unwrap_or(0), std::sync::atomic::Ordering::Relaxed);
         ULID_IDS.store(sc["ulid"].as_bool().unwrap_or(false), std::sync::atomic::Ordering::Relaxed);
         let micro = sc["log"].as_str().unwrap_or("micro") == "micro";
